@@ -38,6 +38,10 @@ CLAIMS = {
         tech="static analysis: path counting of the single call of fn, dominance of the parameter check, handler-exit analysis, generated-code hole provenance, descriptor sibling agreement (ast + CFG)",
         text="Decides exactly-once call and identity of the returned object on every normal path, body-not-run on violation, bind errors outside converting handlers, functools.wraps/descriptor rebuilding, hygiene of every hole of the exec'd template, coroutine-kind coverage.",
         ref="DESIGN.md §4 C07"),
+    "C08": dict(
+        tech="static analysis: must-pass-through and dominance on the CFG of the PyTree check (every leaf checked, reject on first failure, accept only after the loop), predicate identity flatten/check, rollback and flag typestates (ast + CFG)",
+        text="Decides the clauses of the property that are visible in the shape of the code: trivial acceptances first, flatten from the checked value with is_leaf = the very predicate that later checks each leaf, every leaf checked / first failure rejects / acceptance only after the loop, leaf predicate = full typeguard check false exactly on TypeError, no new binding context for leaves, rollback on rejection, flatten-mode flag around the flatten. Which containers jax treats as nodes and PyTree[L] == PyTree[PyTree[L]] are value-level and not decided.",
+        ref="DESIGN.md §4 C08, §7"),
     "C09": dict(
         tech="static analysis: exception-translation discipline for unbound composite names, ValueError-only raise census and validation dominance in PyTree.__getitem__, bind-if-absent shape (ast + CFG)",
         text="Decides three clauses: unbound name in a composite raises AnnotationError and is not swallowed, structure-string validation raises only ValueError on nodes dominating the class return, identifier form is bind-if-absent/compare; tree composition semantics are value-level and not decided.",
@@ -88,9 +92,7 @@ CLAIMS = {
         ref="DESIGN.md §4 C20"),
 }
 
-NOT_APPLICABLE = {
-    "C08": "membership of a tree in PyTree[L] quantifies over runtime tree values and jax.tree_util's flattening; no clause beyond those decided under C04 (rollback), C12 (flatten-mode flag) and C16 (label ownership) is visible in the shape of the code, and a runtime test would be a different technique family",
-}
+NOT_APPLICABLE = {}
 
 NOTE = ("Static analysis of /repo's source text with CPython's ast (jtsa: own name resolution, call graph, statement CFG "
         "with Exception/BaseException edge classes and finally-duplication, product-state typestate solver). Nothing under "
